@@ -294,4 +294,6 @@ def check(ctx, R):
     R.run("C12.e", rule_e, ctx)
     R.run("C12.f", rule_f, ctx)
     R.run("C12.g", rule_g, ctx)
+    from . import c04 as _c04
+    R.run("C12.h", lambda R, c: _c04.rule_e(R, c, "C12.h"), ctx)
     return {}
